@@ -53,11 +53,15 @@ EventsOK(x) == LET good == Cardinality({j \in DOMAIN x.obs.tcp.resp : x.obs.tcp.
 Lead(r) == "lead" \in DOMAIN r /\ r.lead
 HasLead(rs) == \E j \in DOMAIN rs : Lead(rs[j])
 KS(o) == [j \in DOMAIN o.resp |-> <<o.resp[j].k, o.resp[j].status>>]
+Upto(s) == IF \E i \in DOMAIN s : s[i][1] = 0 THEN SubSeq(s, 1, CHOOSE i \in DOMAIN s : s[i][1] = 0 /\ \A m \in 1..(i - 1) : s[m][1] # 0) ELSE s
 LeadOK(rs, x) == LET j == CHOOSE j \in DOMAIN rs : Lead(rs[j]) /\ \A m \in 1..(j - 1) : ~Lead(rs[m])
                      pre == IdealKs(SubSeq(rs, 1, j - 1)) IN
                  \* (over the socket a server that closes with input unread resets the connection, and responses already written may be lost
                  \*  to the client: there the responses received are a prefix of the reference's)
-                 /\ KS(x.obs.mem) = KS(x.obs.ref) /\ IsPrefix(KS(x.obs.tcp), KS(x.obs.ref))
+                 \* (a server that answers the request with an error response and goes on reads the rest of its bytes as it reads what follows
+                 \*  any refused request: where that one ends is not defined by its bytes -- see BadEnds in ConnGen --, so the executions are
+                 \*  compared up to and including the first error response)
+                 /\ Upto(KS(x.obs.mem)) = Upto(KS(x.obs.ref)) /\ IsPrefix(Upto(KS(x.obs.tcp)), Upto(KS(x.obs.ref)))
                  /\ IsPrefix(pre, Ks(x.obs.ref))
                  /\ \A o \in {x.obs.mem, x.obs.tcp} : \A m \in 1..Len(pre) : m \in DOMAIN o.resp => (o.resp[m].body_ok /\ o.resp[m].same /\ o.resp[m].status = 200)
 ScnClass(rs, cs) == IF Coalesced(rs, cs) THEN "coalesced" ELSE IF HeadSplit(rs, cs) THEN "head-split" ELSE "aligned-or-body-split"
